@@ -170,7 +170,7 @@ func main() {
 		Level: "model_checking",
 		Rule: "One scenario per (environment, receiver type, exported method) of the hand-classified method table (verif/lib/optable). " +
 			"A leaf is one call under one (operand kind × aliasing pattern {fresh, out==op_i, op_i==op_j, all equal — those the dynamic types permit} × " +
-			"output history {fresh exact, larger degree, larger level, same shape holding another result, smaller level} × receiver history " +
+			"output history {fresh exact, larger degree, larger level, same shape holding another result, smaller level (allocated larger, filled, shrunk in place: spare capacity holds old rows), smaller degree shrunk in place the same way} × receiver history " +
 			"{new, scratch buffers filled with 2^64-1, scratch buffers filled with a valid-looking pattern, after each other method of the table (quick: its first operand kind; thorough: every kind)}); " +
 			"full product; thorough adds every ordered pair of previous methods for every aliasing pattern (not combined with the output histories); receivers obtained by ShallowCopy of a new / of a used receiver are further histories. Each leaf also runs the reference execution (new receiver, distinct identical operand copies, fresh zeroed output) under the same PRNG seed. " +
 			"Oracles: (a) identity snapshot (all words, metadata, big-number words, slice headers) of every argument except the designated output equal before/after; " +
@@ -190,7 +190,7 @@ func main() {
 		ThoroughBudget: 25 * time.Minute,
 		Expect: func(tier string) []string {
 			e := []string{"method-table=complete", "alias=fresh", "alias=out==in", "alias=in==in", "alias=all-equal",
-				"outshape=exact", "outshape=dirty-words", "outshape=dirty-meta", "outshape=larger-degree", "outshape=larger-level", "outshape=smaller-level",
+				"outshape=exact", "outshape=dirty-words", "outshape=dirty-meta", "outshape=larger-degree", "outshape=larger-level", "outshape=smaller-level", "outshape=shrunk-degree",
 				"history=new", "history=residue", "history=after-call", "history=shallow-copy"}
 			for _, t := range ot.Targets() {
 				if len(envsFor(t, tier)) == 0 {
